@@ -36,7 +36,8 @@ class Watch:
         self.items = []      # [label, object, snapshot]
         self.vids = {}
         self.keep = []       # the Variable objects seen (kept alive: ids stay valid)
-        self.problems = []
+        self.problems = []   # a retained value changed: the property is violated on this input
+        self.hazards = []    # a retained value shares a mutable container with the live term: reported after the violations
         self.checks = 0
     def snap(self, obj, depth=0):
         E = self.E
@@ -90,7 +91,7 @@ class Watch:
         return acc
     def sharing(self, when, yps=(), roots=()):
         """no Functor / argument list of a retained value is part of another retained value or of the live term"""
-        if self.problems:
+        if self.problems or self.hazards:
             return
         E = self.E
         owner = {}
@@ -99,7 +100,7 @@ class Watch:
                 continue
             for i in self._containers(obj, set()):
                 if i in owner and owner[i] != k:
-                    self.problems.append('%s (%s) and %s share a Functor / argument list object (%s)' % (
+                    self.hazards.append('%s (%s) and %s share a Functor / argument list object (%s)' % (
                         label, self.show(snap), self.items[owner[i]][0], when))
                     return
                 owner[i] = k
@@ -119,7 +120,7 @@ class Watch:
             for i in self._containers(obj, set()):
                 if i in owner:
                     label, _, snap = self.items[owner[i]]
-                    self.problems.append('%s (%s) shares a Functor / argument list object with %s (%s)' % (label, self.show(snap), what, when))
+                    self.hazards.append('%s (%s) shares a Functor / argument list object with %s (%s)' % (label, self.show(snap), what, when))
                     return
 
 # ---------------------------------------------------------------- programs
@@ -632,6 +633,7 @@ def run_query(E, yp, case, q, driver, pyjson, py_spec):
     except RecursionError:
         return {'end': 'cyc-or-deep', 'answers': [], 'count': 0, 'leftover': [], 'problems': []}
     res['problems'].extend(W.problems[:2])
+    res['sharing'] = W.hazards[:1]
     res['answers'] = semcheck.canon_answers([[terms.term_obs(x) for x in a] for a in raw])
     res['findall_inner'] = bool(getattr(yp, '_verif_findall_inner', False))
     res['retained'] = len(W.items)
@@ -707,6 +709,10 @@ def compare(case, io, mo):
                 show = lambda ans: [terms.show_term(terms.obs_term(x)) for x in ans[k]] if k < len(ans) else None
                 return '[%s driver] query %s: get_value of the query variables differs from the model at answer %d (implementation %d answers, model %d): %s, model: %s' % (
                     driver, qtxt, k + 1, iq['count'], mcount, show(ianswers), show(manswers))
+    for driver, qs in io['drivers'].items():
+        for qi, iq in enumerate(qs):
+            if iq.get('sharing'):
+                return '[%s driver, query %d] %s' % (driver, qi, iq['sharing'][0])
     return None
 
 def nontrivial(case, io):
